@@ -246,3 +246,41 @@ Definition rn_colour (c : color) : colour :=
 Definition rn_sstyle (s : style) : sstyle :=
   Sgr.mkStyle (option_map rn_colour (st_fg s)) (option_map rn_colour (st_bg s))
               (option_map rn_colour (st_ul s)) (st_eff s).
+
+(* ---- vocabulary of the function translator (tools/gen_fn_render.py -> Generated/RenderFn.v):
+   the Rust data layout of DisplayBuffer and of the colour newtypes.  Definitions only;
+   nothing above uses them. *)
+
+(* struct DisplayBuffer { buffer: [u8; DISPLAY_BUFFER_CAPACITY], len: usize } as it is *)
+Record rn_dbuf : Set := mkRnDbuf { db_buffer : list N; db_len : N }.
+Definition set_db_buffer (d : rn_dbuf) (v : list N) : rn_dbuf := mkRnDbuf v (db_len d).
+Definition set_db_len (d : rn_dbuf) (v : N) : rn_dbuf := mkRnDbuf (db_buffer d) v.
+(* #[derive(Default)]: all zero *)
+Definition rn_dbuf_default : rn_dbuf := mkRnDbuf (repeat 0 (N.to_nat rn_display_buffer_capacity)) 0.
+(* what [rn_buf] keeps of it: buffer[0..len] (DisplayBuffer::as_str) *)
+Definition rn_dbuf_abs (d : rn_dbuf) : rn_buf := firstn (N.to_nat (db_len d)) (db_buffer d).
+
+(* Iterator::enumerate over a slice *)
+Definition rn_enumerate {A} (l : list A) : list (N * A) := combine (range_from 0 (length l)) l.
+
+(* RgbColor(pub u8, pub u8, pub u8), Ansi256Color(pub u8) *)
+Definition rn_rgb_f0 (c : N * N * N) : N := let '(r, _, _) := c in r.
+Definition rn_rgb_f1 (c : N * N * N) : N := let '(_, g, _) := c in g.
+Definition rn_rgb_f2 (c : N * N * N) : N := let '(_, _, b) := c in b.
+Definition rn_a256_f0 (i : N) : N := i.
+Definition rn_a256_new (i : N) : N := i.
+(* core::str::from_utf8_unchecked: bytes and strings are both byte lists here *)
+Definition rn_from_utf8_unchecked (b : list N) : list N := b.
+
+(* enum Color { Ansi(AnsiColor), Ansi256(Ansi256Color), Rgb(RgbColor) } with the payloads as the
+   translator sees them ([color] of Model/Style.v spreads the three components of Rgb) *)
+Inductive rn_color_view : Set :=
+  | RvAnsi (a : ansi_color)
+  | RvAnsi256 (i : N)
+  | RvRgb (c : N * N * N).
+Definition rn_color_view_of (c : color) : rn_color_view :=
+  match c with
+  | CoAnsi a => RvAnsi a
+  | CoAnsi256 n => RvAnsi256 n
+  | CoRgb r g b => RvRgb (r, g, b)
+  end.
